@@ -1,8 +1,60 @@
-(* Props/C24.v -- temporary: filled when C24/ProofsDom.v and ProofsPO.v land *)
+(* Props/C24.v -- property C24: dominance and post-order traversal match their
+   graph definitions.  ONLY theorem statements closed by `exact`.
+   Specs: `path`, `reachable`, `dom_spec` (top of C24/ProofsDom.v: every path from
+   the entry 0 to b contains a) and `reach` (top of C24/ProofsPO.v). *)
 From Coq Require Import List Arith.
-From XV Require Import C24.Model.
+From XV Require Import C24.Model C24.ProofsDom C24.ProofsPO.
 Import ListNotations.
-Example C24_nonvacuous_diamond :
-  dominance [[1;2];[3];[3];[]] =
-  Some [[true;false;false;false];[true;true;false;false];[true;false;true;false];[true;false;false;true]].
-Proof. vm_compute. reflexivity. Qed.
+
+(* the `while changed` loop of DominanceInfo.__init__ terminates (fuel never exhausted) *)
+Theorem C24_dominance_terminates : forall g, wf_cfg g -> exists d, dominance g = Some d.
+Proof. exact dominance_terminates. Qed.
+Print Assumptions C24_dominance_terminates.
+
+(* A dominates reachable B exactly when every entry->B path passes through A,
+   for every CFG (self-loops, multi-edges, unreachable blocks anywhere). *)
+Theorem C24_dominates_iff : forall g d a b, wf_cfg g -> dominance g = Some d ->
+  reachable g b -> a < length g -> (dominates d a b = true <-> dom_spec g a b).
+Proof. exact dominates_iff. Qed.
+Print Assumptions C24_dominates_iff.
+
+Theorem C24_dominates_refl : forall g d b, wf_cfg g -> dominance g = Some d ->
+  b < length g -> dominates d b b = true.
+Proof. exact dominates_refl. Qed.
+Print Assumptions C24_dominates_refl.
+
+Theorem C24_strictly_dominates_iff : forall g d a b, wf_cfg g -> dominance g = Some d ->
+  reachable g b -> a < length g ->
+  (strictly_dominates d a b = true <-> (a <> b /\ dom_spec g a b)).
+Proof. exact strictly_dominates_iff. Qed.
+Print Assumptions C24_strictly_dominates_iff.
+
+(* post-order: terminates; every reachable block exactly once, nothing else, entry last *)
+Theorem C24_post_order_terminates : forall g, exists l, post_order g = Some l.
+Proof. exact post_order_terminates. Qed.
+Print Assumptions C24_post_order_terminates.
+
+Theorem C24_post_order_spec : forall g l, post_order g = Some l ->
+  NoDup l /\ (forall b, In b l <-> reach g b) /\ last l 0 = 0 /\ l <> [].
+Proof. exact post_order_spec_general. Qed.
+Print Assumptions C24_post_order_spec.
+
+(* recorded refutations of the code before the two repairs (known_findings.json: fixed) *)
+Theorem C24_dominance_old_refuted : exists g d a b,
+  wf_cfg g /\ dominance_old g = Some d /\ reachable g b /\ dom_spec g a b /\ dominates d a b = false.
+Proof. exact dominance_old_refuted. Qed.
+Print Assumptions C24_dominance_old_refuted.
+
+Theorem C24_post_order_old_refuted : exists g l,
+  wf_cfg g /\ post_order_old g = Some l /\ ~ NoDup l.
+Proof. exact post_order_old_refuted. Qed.
+Print Assumptions C24_post_order_old_refuted.
+
+(* non-vacuity: a diamond with a back edge, an unreachable block feeding the join *)
+Example C24_nonvacuous :
+  dominance [[1;2];[3];[3];[0;3];[3]] =
+    Some [[true;false;false;false;false];[true;true;false;false;false];
+          [true;false;true;false;false];[true;false;false;true;false];
+          [true;true;true;true;true]]
+  /\ post_order [[1;2];[3];[3];[0;3];[3]] = Some [3;1;2;0].
+Proof. vm_compute. split; reflexivity. Qed.
